@@ -26,6 +26,19 @@ ByIds(store, ids) == SelectSeq(ids, LAMBDA x : \E i \in DOMAIN store : store[i].
 \* UnstakeRequests{user}: that user's open requests over all batches, ascending batch id
 RequestsOf(reqs, user) == {<<r.b, r.amt>> : r \in {q \in reqs : q.u = user}}
 
+\* Batch{id}: the batch with that id, or an error (here: the empty answer)
+BatchById(store, id) == ByIds(store, <<id>>)
+\* PendingBatch{}: the one batch that is still collecting requests (a reachable store has exactly one)
+PendingIds(store) == PageIds(store, NoCursor, NoLimit, "pending")
+
+\* AllUnstakeRequests / AllUnstakeRequestsV2 {start_after, limit} (deprecated, kept by the contract): every open request
+\* ordered by (user, batch). A request is [b, rank, amt] where rank is the position of the user's address among the
+\* addresses in string order. NAMED DEVIATION from what a pager would expect: the cursor is turned into the bound
+\* ("", start_after), which lies below every real key (no address is the empty string), so `start_after` never skips
+\* anything - the answer is always a prefix of the whole list.
+ReqLess(x, y) == x.rank < y.rank \/ (x.rank = y.rank /\ x.b < y.b)
+AllRequests(reqs, startAfter, limit) == Take(SortSeq(SetToSeq(reqs), ReqLess), limit)
+
 \* iterating pages of size k from no cursor
 RECURSIVE Chain(_, _, _, _, _)
 Chain(store, k, filter, cursor, fuel) ==
